@@ -6,6 +6,7 @@ ENTRY = dict(
     technique="Lean 4 theorems over all field values (envelope model `encode`, nine request payload builders, schedule bitmap, "
               "network-info and program-version encoders) + correspondence with Frame.bytes / FrameWriter.write / the running "
               "producer + Lean judges (C02.spec, positional parsers) evaluated on the implementation's own bytes",
+    prop_modules=["C02", "C02Object"],
     level_text=(
         "Proof: `C02.envelope`/`C02.holds` show for ALL kinds, addresses, sender-type/version bytes and payloads with "
         "|payload|+10 < 65536 that the serialised bytes are 0x68, LE16 total length, recipient, sender, sender type, version, kind, "
@@ -15,6 +16,12 @@ ENTRY = dict(
         "layout (exact length, nothing else), `*_ok` that it succeeds on every admissible value, and the error branches (absent key, value "
         "outside 0..255, thermostat overflow) are modelled explicitly; `C02.bitmap_layout` proves byte 6d+j of the bitmap holds slots "
         "8j..8j+7 of day d MSB first; `net_layout`/`version_layout` give the field offsets of the two encodable responses. "
+        "Frame OBJECT (Props/C02Object, generic in the kind's create_message/decode_message): the state machine of frames/__init__.py "
+        "(lazy `message`/`data` getters with caches, setters that clear the other cache, `bytes`, `len()`); for ALL operation sequences "
+        "`bytes_reflect_last_content` (bytes = envelope of the unchanged header around the payload of the LAST data/message set), "
+        "`length_consistent` (len() = length field = byte count), `getters_pure`, `getter_idempotent`; FrameWriter model: "
+        "`write_hands_over_bytes`, `writeAll_events` (one write + one drain per frame, stream = concatenation), `close_events` "
+        "(close, wait_closed, OSError/TimeoutError swallowed). "
         "The models are tied to the code by running the real classes on generated arguments (thorough: all 256^2 pairs of every "
         "two-field request, all (index, offset) thermostat pairs, 40 schedule kinds x 2k bitmaps) and comparing bytes, and the Lean "
         "judges are evaluated on what the implementation produced."),
@@ -27,6 +34,8 @@ ENTRY = dict(
         "payload of each parameterised request holds exactly the given fields at documented positions": "theorem (per builder: *_parse, *_ok) + correspondence (builder model = create_message)",
         "schedule bitmap layout (byte 6d+j = slots 8j..8j+7 of day d, MSB first)": "theorem",
         "network-info / program-version payload offsets": "theorem + correspondence",
+        "a re-used frame object serialises the last content it was given (all operation sequences)": "theorem (C02Object) + correspondence (every step of generated sequences on ONE object vs the model, plus a fresh-object oracle)",
+        "FrameWriter: transport gets frame.bytes, one write + one drain per frame; close swallows OSError/TimeoutError": "theorem about the writer model + correspondence (scripted stream writer, virtual-time timeouts)",
         "class of a frame kind carries that kind's code; bytes reach the transport unchanged (FrameWriter.write, producer)": "correspondence",
     },
     assumptions=COMMON_ASSUME + [
